@@ -22,10 +22,12 @@ import (
 	"os"
 	"path/filepath"
 	"reflect"
+	"regexp"
 	"sort"
 	"strings"
 	"sync"
 	"testing"
+	"time"
 
 	"github.com/pilosa/pilosa"
 	"github.com/pilosa/pilosa/boltdb"
@@ -441,6 +443,11 @@ func c25Alphabet(thorough bool) []vx.Op {
 	return a
 }
 
+var (
+	c25SegRe   = regexp.MustCompile(`b(\d+)\[([^\]]*)\]\{([^}]*)\} `)
+	c25GhostRe = regexp.MustCompile(`\d+:\(\);`)
+)
+
 // c25Key classifies from the MINIMAL failing path.
 func c25Key(p []vx.Op, got, want string) string {
 	last := p[len(p)-1]
@@ -497,8 +504,24 @@ func c25Key(p []vx.Op, got, want string) string {
 		return "caller-mutation-leaks handed-out-by=" + src
 	}
 	if last.Name == "rBlocks" {
+		// Is the ONLY discrepancy that ids without any attribute are still listed (and checksummed)?
+		// Drop those entries (and blocks left empty) from the observation and compare again.
 		if strings.Contains(got, ":();") {
-			return "blocks list-id-without-attributes"
+			norm := c25SegRe.ReplaceAllStringFunc(got, func(seg string) string {
+				m := c25SegRe.FindStringSubmatch(seg)
+				if !strings.Contains(m[3], ":();") {
+					return seg
+				}
+				ids := c25GhostRe.ReplaceAllString(m[3], "")
+				if ids == "" {
+					return ""
+				}
+				return fmt.Sprintf("b%s[same-checksum-as-equal-store]{%s} ", m[1], ids)
+			})
+			if norm == want {
+				return "blocks list-id-without-attributes"
+			}
+			return "blocks mismatch besides ids without attributes"
 		}
 		if strings.Contains(got, "checksum-differs-from-equal-store") {
 			return "blocks checksum-differs-for-equal-contents"
@@ -517,23 +540,82 @@ func c25Key(p []vx.Op, got, want string) string {
 	return "mismatch at=" + last.Name + " after=" + strings.Join(names, "+")
 }
 
+// c25Harness: variant 0 = empty store, tier alphabet; 1 = a store populated by an earlier process
+// (one bulk write, then a new store object on the file: everything is cold), tier alphabet;
+// 2 = empty store, quick alphabet (used for the deeper phase A of the thorough tier).
+func c25Harness(variant int) *vx.Harness {
+	th := os.Getenv("VERIF_TIER") == "thorough"
+	alpha := c25Alphabet(th)
+	if variant == 2 {
+		alpha = c25Alphabet(false)
+	}
+	return &vx.Harness{Alphabet: alpha, Key: c25Key, New: func() vx.Instance {
+		in := c25New(true)
+		if variant == 1 {
+			for _, o := range c25Seed() {
+				if g, w := in.Apply(o); g != w {
+					panic(fmt.Sprintf("c25: seed step %s: got %q want %q", o, g, w))
+				}
+			}
+		}
+		return in
+	}}
+}
+
+func c25Seed() []vx.Op {
+	return []vx.Op{{Name: "bulk", Args: []int64{0}, S: c25RenderIDs(c25Bulks()[0])}, vx.O("reopenNew")}
+}
+
 func TestVerif_C25(t *testing.T) {
-	c := vx.NewCheck("C25", "model_checking",
-		"all operation sequences over the alphabet up to the phase-A depth on a fresh real bolt attribute store, then BFS over canonical (contents, cached ids, stored ids, map held by the caller) states; every block checksum compared with a second store of equal contents; distinct = distinct canonical end states")
+	th := os.Getenv("VERIF_TIER") == "thorough"
 	c25DetectShared()
-	th := c.Thorough()
-	h := &vx.Harness{Alphabet: c25Alphabet(th), New: func() vx.Instance { return c25New(th) }, Key: c25Key}
-	c.RunDFS(h, c.Pick(3, 4))
-	c.RunBFS(h, c.Pick(5, 6), c.Pick(3000, 40000))
+	h := c25Harness(0)
+	c25PxVariant = c25Harness
+	c25PxSeedOps = func(v int) []vx.Op {
+		if v == 1 {
+			return c25Seed()
+		}
+		return nil
+	}
+	// children hand their table (block contents -> checksum of the canonical second store) to the parent
+	c25PxCollect = func() map[string]string {
+		kv := map[string]string{}
+		c25Canon.Range(func(k, v interface{}) bool { kv[k.(string)] = v.(string); return true })
+		return kv
+	}
+	if c25PxChild(h) {
+		return
+	}
+	c := vx.NewCheck("C25", "model_checking",
+		"all operation sequences over the alphabet up to the phase-A depth on a fresh real bolt attribute store (empty, and populated-then-reopened cold), then BFS over canonical (contents, cached ids, stored ids, map held by the caller) states; every block checksum compared with a second store of equal contents; distinct = distinct canonical end states")
+	kv := map[string]string{}
+	t0 := time.Now()
+	ends := c25PxRunDFS(c, h, 0, 3, kv)
+	ends += c25PxRunDFS(c, c25Harness(1), 1, 3, kv)
+	if th {
+		c25PxRunDFS(c, c25Harness(2), 2, 4, kv)
+	}
+	c.Extra("phaseA_wall_s", time.Since(t0).Seconds())
+	c.Bound("phaseA", "v0: empty store, depth 3; v1: seed [bulk{1:x=s,100:x=true}; new store object], depth 3; v2 (thorough): empty store, quick alphabet, depth 4")
+	// Phase B (thorough tier): state-merged BFS from the empty store.
+	if th {
+		t0 = time.Now()
+		c25PxRunBFS(c, h, 0, 6, 20000, kv)
+		c.Extra("phaseB_wall_s", time.Since(t0).Seconds())
+	} else {
+		c.AddStates(int64(ends))
+	}
 	c.ConfirmViolations(h)
 	// inequality direction: distinct block contents => distinct checksums (over every content seen)
+	c25Canon.Range(func(k, v interface{}) bool { kv[k.(string)] = v.(string); return true })
 	byCk := map[string]string{}
 	var keys []string
-	c25Canon.Range(func(k, v interface{}) bool { keys = append(keys, k.(string)); return true })
+	for k := range kv {
+		keys = append(keys, k)
+	}
 	sort.Strings(keys)
 	for _, k := range keys {
-		v, _ := c25Canon.Load(k)
-		ck := v.(string)
+		ck := kv[k]
 		content := k[strings.Index(k, "|")+1:]
 		blk := k[:strings.Index(k, "|")]
 		if o, ok := byCk[blk+ck]; ok && o != content {
